@@ -22,6 +22,7 @@ func init() {
 	}
 	register(&Property{
 		ID:        "C01",
+		Pure:      tornFilePure("C01"),
 		Technique: "explicit enumeration of all operation histories (deliver, ack oldest/newest, commit with optional failure, periodic tick, crash+restart) up to a depth over the real observer/stream/checkpoint/metadata code, reference model evaluated after every step and after every crash point",
 		Rule:      "histories over {deliver0, deliver1, ackold, acknew, commit(ok|fail), tick, crash, crash-inside-a-save with every subset of the per-vBucket writes applied} for six snapshot layouts and two backends; every history ends with (or contains) a crash followed by a real restart on the same simulated bucket; non-trivial = distinct (history, durable tuples, tracked positions)",
 		Assume:    pipeAssume,
@@ -72,6 +73,7 @@ func init() {
 	})
 	register(&Property{
 		ID:        "C06",
+		Pure:      tornFilePure("C06"),
 		Technique: "explicit enumeration of operation histories over snapshot layouts with delayed acknowledgements and saves; a monitor checks every offset handed out, tracked, handed to the metadata store, stored and requested after restart against the reference set of single-event tuples",
 		Rule:      "histories over {deliver0, deliver1, ackold, acknew, commit, crash} for six snapshot layouts (single-item, multi-item, back-to-back, seqno-advanced closing a snapshot, reserved keys, sparse); non-trivial = distinct (history, tuples)",
 		Assume:    pipeAssume,
@@ -87,6 +89,7 @@ func init() {
 			}
 			out = append(out, Instance{Scenario: "pipe_malformed", Params: mustJSON(struct{}{}), Bound: 0})
 			out = append(out, Instance{Scenario: "reopen_life", Params: mustJSON(LifeParams{Oracle: "tuple", Segs: 2}), Bound: 0, Shards: 8, Note: "chains of transient ends and re-opens on changing history branches with late acknowledgements of earlier segments"})
+			out = append(out, Instance{Scenario: "c02_resume", Params: mustJSON(ResumeParams{Backend: "custom"}), Bound: 0, Shards: 2, Note: "start offsets (incl. auto-reset latest on vBuckets with a multi-entry fail-over log) name the history branch the stream is opened on"})
 			out = append(out, Instance{Scenario: "c06_reopen", Params: mustJSON(struct{}{}), Bound: 0, Note: "transient end, re-open answered with a rollback: the observer carries its old snapshot into the catch-up phase"})
 			return out
 		},
